@@ -44,6 +44,11 @@ func loadSpecDB() (*SpecDB, error) {
 		return nil
 	})
 	sort.Strings(paths)
+	relOf := func(p string) string {
+		rel, _ := filepath.Rel(contractsDir, filepath.Dir(p))
+		return filepath.ToSlash(rel)
+	}
+	sort.SliceStable(paths, func(i, j int) bool { return providerRank(relOf(paths[i])) < providerRank(relOf(paths[j])) })
 	for _, p := range paths {
 		rel, _ := filepath.Rel(contractsDir, filepath.Dir(p))
 		pkg := modulePath + "/" + filepath.ToSlash(rel)
@@ -93,18 +98,25 @@ func loadSpecDB() (*SpecDB, error) {
 				}
 				db.local[pkg+"|"+s.Kind+" "+s.Key] = s
 			}
+			// The global table serves packages that have no declaration of their own. The first declaration wins (files of
+			// the shared providers are loaded first, see providerRank): the text of an identical later copy may still mean
+			// something else (its ufuncs and ghosts belong to its own package), so it must not replace the earlier one.
 			switch s.Kind {
 			case "ext":
-				if old, dup := db.ext[s.Key]; dup && old != s && specSig(old) != specSig(s) {
-					// a conflict only poisons the checks that use this contract (see conflictFor), not the whole database
-					db.conflicts["ext "+s.Key] = fmt.Sprintf("ext %s is declared with different contracts in %s and %s", s.Key, shortPkg(db.extCF[s.Key].Pkg), shortPkg(cf.Pkg))
+				if old, dup := db.ext[s.Key]; dup && old != s {
+					if specSig(old) != specSig(s) && providerRank(db.extCF[s.Key].Pkg) == len(sharedProviders) {
+						// a conflict only poisons the checks that use this contract (see conflictFor), not the whole database
+						db.conflicts["ext "+s.Key] = fmt.Sprintf("ext %s is declared with different contracts in %s and %s", s.Key, shortPkg(db.extCF[s.Key].Pkg), shortPkg(cf.Pkg))
+					}
 					continue
 				}
 				db.ext[s.Key] = s
 				db.extCF[s.Key] = cf
 			case "iface":
-				if old, dup := db.iface[s.Key]; dup && old != s && specSig(old) != specSig(s) {
-					db.conflicts["iface "+s.Key] = fmt.Sprintf("iface %s is declared with different contracts in %s and %s", s.Key, shortPkg(db.ifCF[s.Key].Pkg), shortPkg(cf.Pkg))
+				if old, dup := db.iface[s.Key]; dup && old != s {
+					if specSig(old) != specSig(s) && providerRank(db.ifCF[s.Key].Pkg) == len(sharedProviders) {
+						db.conflicts["iface "+s.Key] = fmt.Sprintf("iface %s is declared with different contracts in %s and %s", s.Key, shortPkg(db.ifCF[s.Key].Pkg), shortPkg(cf.Pkg))
+					}
 					continue
 				}
 				db.iface[s.Key] = s
